@@ -94,7 +94,16 @@ fn supervise(id: &str, tier: Tier, seed: u64) -> i32 {
                     1
                 }
                 Confirm::Passed => {
-                    println!("INCONCLUSIVE property={id} a case exceeded its deadline under load but finished when run alone");
+                    // slow because the machine was busy, not a hang: run the check again with
+                    // deadlines wide enough for a loaded machine (once)
+                    if std::env::var("HV_DEADLINE_SCALE").is_err() {
+                        println!("  note: a case of check {check} exceeded {dl} ms under load but finished when run alone; repeating the run with wider deadlines");
+                        let _ = std::fs::remove_dir_all(&dir);
+                        // SAFETY: single-threaded at this point of the supervisor
+                        unsafe { std::env::set_var("HV_DEADLINE_SCALE", "6") };
+                        return supervise(id, tier, seed);
+                    }
+                    println!("INCONCLUSIVE property={id} a case exceeded its deadline under load twice but finished when run alone");
                     2
                 }
             };
